@@ -13,7 +13,10 @@ RULE = ("one case = one to_bed12 call; non-trivial when the real library returne
 EXHAUSTIVE_NOTE = ""
 TRUSTED = ["Model/Bed.lean is hand-written; tied to transcript.py/feature.py/bed.py by this run's correspondence",
            "harness/shims.py (marshmallow post_dump) only to import the gene package"]
-ASSUMPTIONS = ["blocks are non-empty, ascending and non-overlapping (0-bp gaps included), as exons are",
+ASSUMPTIONS = ["blocks are non-empty, ascending and non-overlapping (0-bp gaps included), as exons are; an interval with a "
+               "zero-length block is outside the property's domain (on a chunk parent the chunk-relative export drops "
+               "such a block, chromosome mode keeps it: Props/C14.lean zero_length_block_witness) - such inputs are "
+               "generated and compared model-vs-implementation only",
                "chunk parents are plus-strand windows containing the interval (the property's quantifier)",
                "names/ids/sequence names contain no whitespace (a tab inside a name yields a 13-column line: "
                "to_bed12 does no escaping; names are not part of the property's quantifier)",
@@ -141,3 +144,20 @@ def cases(run):
         yield line(kind, st, ex, cds, rng.choice(["chr1", "~", "II"]), rng.choice(NAMES), rng.choice(NAMES),
                    rng.choice(["sym", "id", "lit:nm_x"]), rng.randint(0, 1000),
                    (rng.randint(0, 255), rng.randint(0, 255), rng.randint(0, 255)), mode, par)
+    # zero-length blocks: outside the property's domain (spec: n/a), model-vs-implementation only
+    for _ in range(300 if run.tier == "quick" else 6000):
+        k = rng.randint(1, 4)
+        pts = sorted(rng.sample(range(0, 60), 2 * k))
+        ex = [(pts[2 * i], pts[2 * i + 1]) for i in range(k)]
+        j = rng.randrange(0, k + 1)
+        z = rng.randint(ex[j - 1][1] if j > 0 else 0, ex[j][0] if j < k else 70)
+        ex = ex[:j] + [(z, z)] + ex[j:]
+        if rng.random() < 0.15:
+            ex = [(z, z)]
+        lo, hi = ex[0][0], ex[-1][1]
+        parkind = rng.choice("NWKK")
+        par = f"K {rng.randint(0, lo)} {rng.randint(hi, hi + 10)}" if parkind == "K" else parkind
+        kind = rng.choice("TF")
+        run.count("zero-length-block:" + par[0])
+        yield line(kind, rng.choice("+-"), ex, [], "chr1", "tx1", "~", "sym", 0, (0, 0, 0),
+                   rng.choice(["chrom", "chunk"]), par)
